@@ -1,7 +1,7 @@
 use std::cell::RefCell;
 use std::convert::From;
 use std::fmt;
-use std::io::{self, Read, Write};
+use std::io::{self, Read, Seek, SeekFrom, Write};
 use std::rc::Rc;
 
 use crate::object::file::FileHandle;
@@ -501,6 +501,19 @@ impl Pcap {
     /// Function to write a packet to a pcap file
     pub fn write_all(&self, pkt: Rc<PcapPacket>) -> io::Result<usize> {
         let bytes: Vec<u8> = pkt.as_ref().into();
+
+        // A record longer than the snap length announced in the global header
+        // would make the file unreadable: raise the header's snap length first
+        let caplen = pkt.header.borrow().caplen;
+        if caplen > self.header.borrow().snaplen {
+            if let FileHandle::Writer(writer) = self.file.as_ref() {
+                let mut w = writer.borrow_mut();
+                w.seek(SeekFrom::Start(16))?;
+                w.write_all(&caplen.to_le_bytes())?;
+                w.seek(SeekFrom::End(0))?;
+                self.header.borrow_mut().snaplen = caplen;
+            }
+        }
 
         match self.file.as_ref() {
             FileHandle::Writer(writer) => writer.borrow_mut().write_all(&bytes),
